@@ -9,11 +9,23 @@ import (
 	"strings"
 )
 
+// byte strings are written as lists of byte constructors: the cheapest form for coqc to parse and check
 func cBytes(b []byte) string {
 	if len(b) == 0 {
 		return "[]"
 	}
-	return "(hx \"" + hex.EncodeToString(b) + "\")"
+	var sb strings.Builder
+	sb.Grow(4*len(b) + 2)
+	sb.WriteByte('[')
+	for i, x := range b {
+		if i > 0 {
+			sb.WriteByte(';')
+		}
+		sb.WriteByte('x')
+		sb.WriteString(hex.EncodeToString([]byte{x}))
+	}
+	sb.WriteByte(']')
+	return sb.String()
 }
 func cBool(b bool) string {
 	if b {
